@@ -280,7 +280,7 @@ def outToOutcome : Out → Outcome
   | .WOULD_BE_EXECUTED => .wouldBeExecuted
 
 /-- `isinstance(x, E)` for an instance of class `x`. -/
-def isInst (x e : Exc) : Bool := x == e || excSubclass.contains (x, e)
+def isInst (x e : Exc) : Bool := decide (x = e) || excSubclass.any (fun p => decide (p.1 = x) && decide (p.2 = e))
 
 /-- `none` = evaluating the test raises (`report.exc_info[1]` on a report without exception). -/
 def evalRTest (rep : Rep) : RTest → Option Bool
@@ -289,7 +289,7 @@ def evalRTest (rep : Rep) : RTest → Option Bool
   | .excIs e => match rep.exc with
     | some x => some (isInst x e)
     | none => none
-  | .outcomeIs o => some (rep.outcome == o)
+  | .outcomeIs o => some (decide (rep.outcome = o))
   | .generator => some false
   | .not a => (evalRTest rep a).map (!·)
   | .and a b => match evalRTest rep a with
@@ -355,7 +355,7 @@ def runChain (P : Project) (g : G) (cfg : Cfg) (t : TaskSpec) (st : RSt) : List 
 
 /-- The statements of one implementation; the Boolean says whether it returned `True`. -/
 def runChains (P : Project) (g : G) (cfg : Cfg) (t : TaskSpec) : RSt → List (List RArm) → REnd → RSt × Bool
-  | st, [], fin => (st, fin == .retTrue)
+  | st, [], fin => (st, decide (fin = .retTrue))
   | st, c :: cs, fin =>
     let r := runChain P g cfg t st c
     if r.1.raised then (r.1, false) else
@@ -390,7 +390,8 @@ def processReportGen (P : Project) (g : G) (cfg : Cfg) (s : Sess) (t : TaskSpec)
 /-- Does the handler catch an instance of the class? (All classes of the model derive from `Exception`;
 `Other` stands for what a task body or a node raises.) -/
 def catches (h : Handler) (e : Exc) : Bool :=
-  (excIsException.contains e || e == .Other) && (h.classes.contains "Exception" || h.classes.contains "BaseException")
+  (excIsException.any (fun x => decide (x = e)) || decide (e = .Other)) &&
+    (h.classes.contains "Exception" || h.classes.contains "BaseException")
 
 def protocolGen (F : BodyFn) (P : Project) (g : G) (cfg : Cfg) (s : Sess) (t : TaskSpec) : Sess :=
   let rs := runPhasesGen F P g cfg s t
@@ -425,7 +426,7 @@ def buildLoopGen (F : BodyFn) (P : Project) (g : G) (cfg : Cfg) :
     Sorter → Sess → List Nat → Except Illegal (Sorter × Sess)
   | so, s, [] => .ok (so, s)
   | so, s, t :: ts =>
-    if (buildLoopOps.contains .breakIfStop && s.stop) || s.crashed then .error .leftover else
+    if (buildLoopOps.any (fun o => decide (o = .breakIfStop)) && s.stop) || s.crashed then .error .leftover else
     match iterGen F P g cfg t buildLoopOps so s none with
     | .error e => .error e
     | .ok (so', s') => buildLoopGen F P g cfg so' s' ts
